@@ -713,7 +713,7 @@ pub fn gen_case(seed: u64, k: u64, tier: Tier) -> Case {
 
 pub fn run(cfg: &RunCfg) {
   // counts chosen so that the stride of the in-Coq sample (n/20, n/200) is odd and meets all four streams
-  let n = if cfg.tier == Tier::Quick { 2620 } else { 60200 };
+  let n = if cfg.tier == Tier::Quick { 2620 } else { 26200 };
   let tier = cfg.tier;
   run_cases(cfg, n, |seed, k| gen_case(seed, k, tier));
 }
